@@ -116,6 +116,12 @@ impl From<AckDeadline> for Instant {
     }
 }
 
+/// The process-wide epoch deadlines are rounded against, for the verification harness.
+#[cfg(deltio_verif)]
+pub fn verif_epoch() -> Instant {
+    *EPOCH
+}
+
 #[cfg(test)]
 mod tests {
     use super::*;
